@@ -81,6 +81,9 @@ func c11Alphabet(mode string) lexAlphabet {
 	case "bytes":
 		return lexAlphabet{Mode: mode, Chars: []string{"a", "b", "\x80", "\xc3", "\xff", "\n", " "}, Pat: []string{"a", "b", `\x80`, `\xc3`, `\xff`, `\n`, `\x20`},
 			Width: []int{1, 1, 1, 1, 1, 1, 1}, Canon: []int{1, 2, 3, 4, 5, 6, 7}}
+	case "rune2": // the highest character is exactly U+07FF: the boundary between the flat and the compressed rune map
+		return lexAlphabet{Mode: "rune", Chars: []string{"a", "b", "é", "λ", "\u07ff", "\n", " "}, Pat: []string{"a", "b", "é", "λ", "\u07ff", `\n`, `\x20`},
+			Width: []int{1, 1, 2, 2, 2, 1, 1}, Canon: []int{1, 2, 3, 4, 5, 6, 7}}
 	}
 	return lexAlphabet{Mode: "rune", Chars: []string{"a", "b", "é", "𝄞", "中", "\n", " "}, Pat: []string{"a", "b", "é", "𝄞", "中", `\n`, `\x20`},
 		Width: []int{1, 1, 2, 4, 3, 1, 1}, Canon: []int{1, 2, 3, 4, 5, 6, 7}}
@@ -286,6 +289,15 @@ func c11GenOne(mod string, c *lxCase, a lexAlphabet) (tokIDs map[int]int) {
 	return tokIDs
 }
 
+func unNegate(e *reAST) {
+	if e.K == "class" {
+		e.Neg = false
+	}
+	for _, s := range e.Sub {
+		unNegate(s)
+	}
+}
+
 func maybeConst(e *reAST) bool {
 	switch e.K {
 	case "lit":
@@ -319,7 +331,7 @@ func c11Gen(args []string) error {
 	for id := 0; id < n; id++ {
 		c := &cases[id]
 		c.ID, c.Pkg = id, fmt.Sprintf("x%d", id)
-		c.Mode = []string{"rune", "rune", "bytes", "fold", "foldbytes"}[r.Intn(5)]
+		c.Mode = []string{"rune", "rune", "rune2", "bytes", "fold", "foldbytes"}[r.Intn(6)]
 		a := c11Alphabet(c.Mode)
 		alphs[id] = a
 		c.Width, c.Canon = a.Width, a.Canon
@@ -349,6 +361,9 @@ func c11Gen(args []string) error {
 		prios := r.Perm(nr + 2)
 		for i := 0; i < nr; i++ {
 			re := genRE(r, 1+r.Intn(3), nsym)
+			if c.Mode == "rune2" {
+				unNegate(re)
+			}
 			if reNullable(re) {
 				re = &reAST{K: "cat", Sub: []*reAST{{K: "lit", C: []int{1 + r.Intn(nsym)}}, re}}
 			}
@@ -385,7 +400,7 @@ func c11Gen(args []string) error {
 				}
 			}
 			letters := []int{1, 2}
-			if c.Mode == "rune" {
+			if strings.HasPrefix(c.Mode, "rune") {
 				letters = []int{1, 2, 3, 5} // a b é 中: keywords with multi-byte characters
 			}
 			re := &reAST{K: "plus", Sub: []*reAST{{K: "class", C: letters}}}
